@@ -17,7 +17,7 @@ func init() {
 		ID:       "C19",
 		Category: "model_checking",
 		Rule: "for every accelerated flate setting (4 KiB: levels 1,2,-1,3,6,9; 32 KiB: 1,2,-1): a block of length {4,8,258,1000} repeated at every distance in [W-3,W+3] ([W-40,W+40] and ten block lengths in thorough) and at W+2000, 2W-1, 2W, 2W+257, 65535..65537, 65536+W-1..+1, " +
-			"placed at offsets before/after the first buffer slide and after the 64 KiB position wrap, written whole, in two Writes cut inside the repeat, or with a Flush between original and repeat; periodic data with period W-1, W, W+1; " +
+			"placed at offsets before/after the first buffer slide and after the 64 KiB position wrap, written whole, in two Writes cut inside the repeat, with a Flush between original and repeat, or with original and repeat both ending at a Flush / at Close (the hand-finished tail of a buffer); periodic data with period W-1, W, W+1; " +
 			"oracle: the reference inflater's maximum match distance over the output; non-trivial = the output contains at least one back-reference",
 		Assumptions: []string{"the reference inflater reports the distance of every back-reference it decodes"},
 		Quick:       TierSpec{MaxDev: -1, Shards: 4, ShardDepth: 3, BudgetS: 150},
@@ -60,6 +60,7 @@ func c19Harness(cfg *Cfg) func(x *mc.Exec) {
 		var name string
 		cut := -1
 		flushAt := -1
+		flush2At := -1
 		if mode == 0 {
 			d := dists[x.Choose(len(dists), "dist")]
 			bl := blens[x.Choose(len(blens), "blen")]
@@ -72,11 +73,21 @@ func c19Harness(cfg *Cfg) func(x *mc.Exec) {
 			n := off + d + bl + 300
 			data = pieces.Far(n, off, d, bl, cfg.Seed+uint64(d))
 			name = fmt.Sprintf("far(n=%d,off=%d,d=%d,blen=%d)", n, off, d, bl)
-			switch x.Choose(3, "pattern") {
+			switch x.Choose(5, "pattern") {
 			case 1:
 				cut = off + d + bl/2
 			case 2:
 				flushAt = off + bl
+			case 3:
+				// original and repeat both end where the compressor finishes a buffer by hand (the last bytes before a
+				// Flush / before Close are matched by other code than the bulk): Flush after the original, Close after the repeat
+				flushAt = off + bl
+				data = data[:off+d+bl]
+				name += " ends-at-repeat"
+			case 4: // Flush after the original and Flush after the repeat
+				flushAt = off + bl
+				flush2At = off + d + bl
+				name += " flush-after-repeat"
 			}
 		} else {
 			ps := []int{W - 1, W, W + 1}
@@ -110,6 +121,15 @@ func c19Harness(cfg *Cfg) func(x *mc.Exec) {
 				return
 			}
 			pos = flushAt
+		}
+		if flush2At > pos && flush2At < len(data) {
+			if _, _, ok := r.do(x, "C19", opWrite, data[pos:flush2At], fmt.Sprintf("W(%d..%d)", pos, flush2At)); !ok {
+				return
+			}
+			if _, _, ok := r.do(x, "C19", opFlush, nil, "Flush"); !ok {
+				return
+			}
+			pos = flush2At
 		}
 		if _, _, ok := r.do(x, "C19", opWrite, data[pos:], fmt.Sprintf("W(%d..)", pos)); !ok {
 			return
